@@ -655,16 +655,30 @@ def arrays(rep, R, ix, M, L):
     # an up-front guard `if not np.issubdtype(...): raise` is not the dispatch
     guards = [s for s in chain if always_raises(s.body) and not s.orelse]
     chain = [s for s in chain if s not in guards]
-    if len(chain) != 1:
+    if not chain:
         raise Inconclusive("numpy_to_blackbird: dtype dispatch not recognised")
+    # the dispatch is an if/elif ladder, or (guard form) a run of sibling `if`s whose bodies leave the function, or a mix of both
     c = chain[0]
+    last_top = c
+    els = []
     while True:
         arms.append((c.test, c.body))
-        if len(c.orelse) == 1 and isinstance(c.orelse[0], ast.If):
+        if len(c.orelse) == 1 and isinstance(c.orelse[0], ast.If) and "issubdtype" in u(c.orelse[0].test):
             c = c.orelse[0]
-        else:
+            continue
+        if c.orelse:
             els = c.orelse
             break
+        nxt = fn.body.index(last_top) + 1 if c is last_top else None
+        if nxt is not None and norm._always_leaves(c.body) and nxt < len(fn.body) and fn.body[nxt] in chain:
+            c = last_top = fn.body[nxt]
+            continue
+        if nxt is not None and norm._always_leaves(c.body):
+            els = fn.body[nxt:]            # what follows the last guard is the "any other dtype" branch
+        break
+    if any(x not in [t for t, _ in arms] and x is not None for x in [s_.test for s_ in chain if not any(s_.test is t for t, _ in arms)]):
+        raise Inconclusive("numpy_to_blackbird: dtype dispatch not recognised")
+    sibling_form = last_top is not chain[0] or (not arms[-1:] or (els and els is not c.orelse))
     want = {"np.complexfloating": ("complex", "F_COMPLEX", "NpComplex"), "np.integer": ("int", "F_INT", "NpInt"), "np.floating": ("float", "F_FLOAT", "NpFloat")}
     seen = set()
     for test, body in arms:
@@ -717,7 +731,7 @@ def arrays(rep, R, ix, M, L):
                 rep.unknown(R, ix.site(f, rl), "element template of %s arrays" % word, str(e))
     rep.check(seen == set(want), R, ix.site(f), "complex, integer and floating arrays each have a declaration branch", key="array|dtypes")
     rep.check(always_raises(els), R, ix.site(f), "any other dtype raises", key="array|else")
-    tail = fn.body[fn.body.index(chain[0]) + 1:]
+    tail = [] if sibling_form else fn.body[fn.body.index(chain[0]) + 1:]
     def blank_then_return(ss):
         return len(ss) >= 2 and " ".join(u(ss[-2]).split()) == "script.append('')" and " ".join(u(ss[-1]).split()) == "return script"
     # after the dispatch, or (when the continuation was written / normalised into the arms) at the end of every arm
